@@ -11,6 +11,7 @@
    around them (decided by correspondence + the canonical-run oracle of checks/c03.py, which found S14 and S15, repaired in
    /repo, and S1, a known finding). -/
 import HtpModel.Lemmas.Segment
+import HtpModel.Lemmas.HistoryCounters
 
 namespace Htp.C03
 open Htp Htp.Conn Htp.Gen
@@ -72,5 +73,28 @@ theorem C03_request_line_cut (cfg : Cfg) (a b rest : Bytes) (c : Conn) (hs : c.i
 example : ({ cur := (b!"GET / HT"), curNull := false, len := 8, read := 5, consume := 0, buf := some (b!"xx") } : Dir).Sane ∧
     ({ cur := (b!"GET / HT"), curNull := false, len := 8, read := 5, consume := 0, buf := some (b!"xx") } : Dir).pending = (b!"xxGET /") := by
   refine ⟨⟨rfl, by decide, by decide, by decide, by decide, by decide⟩, by decide⟩
+
+/-- the request bytes of a history, concatenated -/
+def reqBytes : List Conn.Call → Bytes
+  | [] => []
+  | .req d :: rest => d ++ reqBytes rest
+  | _ :: rest => reqBytes rest
+
+theorem offeredReq_eq_length (calls : List Conn.Call) : Conn.offeredReq calls = (reqBytes calls).length := by
+  induction calls with
+  | nil => rfl
+  | cons call rest ih =>
+    cases call <;> simp [Conn.offeredReq, reqBytes, ih]
+
+/-- **C03 (segmentation invariance of the byte accounting, over whole histories)**: two histories that offer the same request bytes, cut into
+    chunks in ANY two ways and interleaved with any other calls, and whose request calls are all accepted, leave the same inbound byte counter:
+    it depends on the bytes, not on the segmentation (corollary of `C09_history_byte_counters`). The invariance of the PARSED record under
+    segmentation is not a theorem of this kind: it is decided by the canonical-run oracle on the implementation. -/
+theorem C03_counter_segmentation_invariant (cfg : Cfg) (c0 : Conn.Conn) (calls1 calls2 : List Conn.Call)
+    (h1 : Conn.AllReqAccepted cfg c0 calls1) (h2 : Conn.AllReqAccepted cfg c0 calls2) (hb : reqBytes calls1 = reqBytes calls2) :
+    (Conn.runCalls cfg c0 calls1).inDataCounter = (Conn.runCalls cfg c0 calls2).inDataCounter := by
+  rw [Conn.history_inDataCounter_accepted cfg c0 calls1 h1, Conn.history_inDataCounter_accepted cfg c0 calls2 h2,
+      offeredReq_eq_length, offeredReq_eq_length, hb]
+
 
 end Htp.C03
